@@ -243,7 +243,8 @@ func runR126(c *Ctx) {
 		c.undecided("internal/ryu", "-", "package not found")
 		return
 	}
-	signAware := func(fn *ssa.Function) bool {
+	var signAwareD func(fn *ssa.Function, d int) bool
+	signAwareD = func(fn *ssa.Function, d int) bool {
 		ok := false
 		eachInstr(fn, func(in ssa.Instruction) {
 			if call, isCall := in.(*ssa.Call); isCall {
@@ -251,10 +252,19 @@ func runR126(c *Ctx) {
 				if isFuncNamed(o, "math", "", "Signbit") || isFuncNamed(o, "math", "", "Float64bits") || isFuncNamed(o, "math", "", "Float32bits") {
 					ok = true
 				}
+				// a decoding helper of the package that is handed the float (decodeFloat64(f))
+				if g := call.Call.StaticCallee(); g != nil && g.Blocks != nil && g.Pkg == fn.Pkg && d < 2 {
+					for _, a := range call.Call.Args {
+						if isFloatType(a.Type()) && signAwareD(g, d+1) {
+							ok = true
+						}
+					}
+				}
 			}
 		})
 		return ok
 	}
+	signAware := func(fn *ssa.Function) bool { return signAwareD(fn, 0) }
 	n := 0
 	for _, fn := range fns {
 		hasFloatParam := false
@@ -435,6 +445,38 @@ func impliesNonNeg(v ssa.Value, b *ssa.BasicBlock) bool {
 		return false
 	}
 	want := accessPath(stripConv(v))
+	if impliesNonNegPath(stripConv(v), want, b) {
+		return true
+	}
+	// inside a function literal: a test made by the enclosing function before the literal was created holds for
+	// what the literal reads through a captured variable
+	fn := b.Parent()
+	if fn.Parent() == nil {
+		return false
+	}
+	for i, fv := range fn.FreeVars {
+		pre := accessPath(fv)
+		if len(want) < len(pre) || want[:len(pre)] != pre {
+			continue
+		}
+		var found bool
+		eachInstr(fn.Parent(), func(in ssa.Instruction) {
+			mc, ok := in.(*ssa.MakeClosure)
+			if !ok || mc.Fn != ssa.Value(fn) || i >= len(mc.Bindings) || found {
+				return
+			}
+			if impliesNonNegPath(nil, accessPath(mc.Bindings[i])+want[len(pre):], mc.Block()) {
+				found = true
+			}
+		})
+		if found {
+			return true
+		}
+	}
+	return false
+}
+
+func impliesNonNegPath(sv ssa.Value, want string, b *ssa.BasicBlock) bool {
 	for _, g := range dominatingGuards(b) {
 		cmp, ok := g.Cond.(*ssa.BinOp)
 		if !ok {
@@ -458,7 +500,7 @@ func impliesNonNeg(v ssa.Value, b *ssa.BasicBlock) bool {
 			}
 		}
 		k, isK := constInt(y)
-		if !isK || (x != stripConv(v) && accessPath(x) != want) {
+		if !isK || (x != sv && accessPath(x) != want) {
 			continue
 		}
 		switch {
